@@ -26,7 +26,7 @@ REQUIRED = ["iff_checked:plurality", "iff_checked:approval", "iff_checked:superm
             "margin_checked:contest_level_call_with_confirmed_assertions", "assertions_built_by_make_all_assertions",
             "candidate_names_contained_in_one_another", "contest_carries_a_reported_tally_when_assertions_are_made",
             "tally_taken_together_with_a_contest_of_another_n_winners", "ballots_in_pooled_batches_with_batch_means_set",
-            "margin_checked:sub_collection", "contest_identifier_assigned_after_assertions_were_made"]
+            "margin_checked:sub_collection", "contest_identifier_assigned_after_assertions_were_made", "marks_held_in_a_dict_subclass"]
 ASSUMPTIONS = ["shares f in {1/2,1/4,1/8} (f and 1/(2f) both dyadic) are exact in binary; inexact shares (2/3, 0.6) are only evaluated at a "
                "distance from the threshold that rounding cannot bridge", "a mark for a name that is not on the contest's "
                "candidate list (write-in) appears only on ballots with no mark for a listed candidate, so that no "
@@ -89,6 +89,9 @@ def gen_profile(rng, kind, stratum):
     if rng.random() < 0.3:
         prof["cards_first"] = nb + rng.choice((1, 3, nb))
     prof["via_make_all"] = rng.random() < 0.4
+    if rng.random() < 0.12:
+        # the marks of a ballot held in a mapping that is a dict but not exactly a dict (json with object_pairs_hook, counters)
+        prof["marks_container"] = rng.choice(("OrderedDict", "defaultdict", "Counter"))
     if rng.random() < 0.1:
         prof["id_first"] = "con (draft)"   # the contest gets its final identifier after its assertions were made
     prof["pooled"] = rng.random() < 0.25
@@ -191,7 +194,10 @@ def build(prof):
     if prof.get("reported_tally"):
         # the contest carries the REPORTED tally when its assertions are made (it may be wrong: that is what is audited)
         con.tally = dict(prof["reported_tally"])
-    cvrs = [CVR(id=f"c{i}", votes=({} if b is None else {"con": dict(b)})) for i, b in enumerate(prof["ballots"])]
+    import collections
+    mk = {"dict": dict, "OrderedDict": collections.OrderedDict, "defaultdict": lambda b: collections.defaultdict(int, b),
+          "Counter": lambda b: collections.Counter(b)}[prof.get("marks_container", "dict")]
+    cvrs = [CVR(id=f"c{i}", votes=({} if b is None else {"con": mk(dict(b))})) for i, b in enumerate(prof["ballots"])]
     losers = [c for c in prof["cands"] if c not in prof["winners"]]
     # the constructors are called twice with the SAME argument objects (a notebook cell re-run, or one race audited
     # twice): the assertions used are those of the second call, and the caller's lists must come back unchanged
@@ -245,6 +251,8 @@ def run_case(prof, rec):
         rec.count("contest_carries_a_reported_tally_when_assertions_are_made")
     if prof.get("id_first"):
         rec.count("contest_identifier_assigned_after_assertions_were_made")
+    if prof.get("marks_container"):
+        rec.count("marks_held_in_a_dict_subclass")
     if any(a != b and a in b for a in cands for b in cands):
         rec.count("candidate_names_contained_in_one_another")
     if con._args_mutated:
